@@ -13,7 +13,7 @@ cp /verif/known_findings.json "$D/verif/"
 if ! (cd "$D/repo" && patch -p1 -s < "$PATCH"); then echo "PATCH-FAILED $PATCH"; rm -rf "$D"; exit 3; fi
 /verif/bin/gsdcheck -repo "$D/repo" -verif "$D/verif" -property "$PROPS" -tier "$TIER" > "$D/out.txt" 2>&1
 rc=$?
-grep -E "FAIL rule|VIOLATION|load failure" "$D/out.txt" | sed "s|$D/repo/||g" | head -${MUT_LINES:-12}
+grep -E "FAIL rule|VIOLATION|load failure|^normalise:" "$D/out.txt" | sed "s|$D/repo/||g" | head -${MUT_LINES:-12}
 echo "exit=$rc"
 rm -rf "$D"
 exit $rc
